@@ -39,9 +39,11 @@ func macTok(m net.HardwareAddr) string {
 
 var serverMAC = net.HardwareAddr{0x02, 0xaa, 0, 0, 0, 1}
 
-// scripted RADIUS server
+// scripted RADIUS server.  "down" = the port is CLOSED (the client's connected UDP socket gets ECONNREFUSED
+// at once), so no verdict ever depends on a real timeout racing the scheduler.
 type radSrv struct {
 	conn   *net.UDPConn
+	port   int
 	mu     sync.Mutex
 	mode   string // accept | reject | down
 	secret []byte
@@ -52,15 +54,50 @@ func newRadSrv() *radSrv {
 	if err != nil {
 		panic(err)
 	}
-	r := &radSrv{conn: c, mode: "accept", secret: []byte("s3cret")}
-	go r.loop()
+	r := &radSrv{conn: c, port: c.LocalAddr().(*net.UDPAddr).Port, mode: "accept", secret: []byte("s3cret")}
+	go r.loop(c)
 	return r
 }
 
-func (r *radSrv) loop() {
+// setMode opens or closes the port as needed.
+func (r *radSrv) setMode(mode string) {
+	r.mu.Lock()
+	defer r.mu.Unlock()
+	r.mode = mode
+	if mode == "down" {
+		if r.conn != nil {
+			r.conn.Close()
+			r.conn = nil
+		}
+		return
+	}
+	if r.conn == nil {
+		for i := 0; i < 200; i++ {
+			c, err := net.ListenUDP("udp4", &net.UDPAddr{IP: net.IPv4(127, 0, 0, 1), Port: r.port})
+			if err == nil {
+				r.conn = c
+				go r.loop(c)
+				return
+			}
+			time.Sleep(time.Millisecond)
+		}
+		panic("cannot re-open the RADIUS port")
+	}
+}
+
+func (r *radSrv) close() {
+	r.mu.Lock()
+	defer r.mu.Unlock()
+	if r.conn != nil {
+		r.conn.Close()
+		r.conn = nil
+	}
+}
+
+func (r *radSrv) loop(c *net.UDPConn) {
 	buf := make([]byte, 4096)
 	for {
-		n, addr, err := r.conn.ReadFromUDP(buf)
+		n, addr, err := c.ReadFromUDP(buf)
 		if err != nil {
 			return
 		}
@@ -82,7 +119,7 @@ func (r *radSrv) loop() {
 		}
 		b, err := resp.Encode()
 		if err == nil {
-			r.conn.WriteToUDP(b, addr)
+			c.WriteToUDP(b, addr)
 		}
 	}
 }
@@ -97,7 +134,7 @@ type run struct {
 func (comp) NewRun() hx.Run { return &run{} }
 func (r *run) Close() {
 	if r.rad != nil {
-		r.rad.conn.Close()
+		r.rad.close()
 	}
 }
 
@@ -236,10 +273,9 @@ func (r *run) Do(op string) string {
 		r.s, r.sock = s, sock
 		if r.radius {
 			r.rad = newRadSrv()
-			port := r.rad.conn.LocalAddr().(*net.UDPAddr).Port
 			cl, err := bngradius.NewClient(bngradius.ClientConfig{
-				Servers: []bngradius.ServerConfig{{Host: "127.0.0.1", Port: port, Secret: "s3cret"}},
-				NASID:   "verif", Timeout: 40 * time.Millisecond, Retries: 1,
+				Servers: []bngradius.ServerConfig{{Host: "127.0.0.1", Port: r.rad.port, Secret: "s3cret"}},
+				NASID:   "verif", Timeout: 3 * time.Second, Retries: 1,
 			}, zap.NewNop())
 			if err != nil {
 				return "error " + err.Error()
@@ -296,13 +332,13 @@ func (r *run) Do(op string) string {
 		r.s.HandleSessionForVerif(src, sess(sidOf(2), pppoe.ProtocolLCP, body))
 	case "pap":
 		if r.rad != nil {
-			r.rad.mu.Lock()
-			r.rad.mode = f[4]
-			r.rad.mu.Unlock()
+			r.rad.setMode(f[4])
 		}
 		pass := "right"
 		if f[3] == "bad" {
 			pass = "wrong"
+		} else if f[3] == "empty" {
+			pass = ""
 		}
 		r.s.HandleSessionForVerif(src, sess(sidOf(2), pppoe.ProtocolPAP, papReq(5, "user"+f[1], pass)))
 	case "ipcp":
@@ -376,7 +412,7 @@ func randOp(rg *rand.Rand, macs int, useRad bool) string {
 		if useRad {
 			out = hx.Pick(rg, []string{"accept", "accept", "reject", "reject", "down"})
 		}
-		return fmt.Sprintf("pap %s %d %s %s", m, sid, hx.Pick(rg, []string{"good", "bad"}), out)
+		return fmt.Sprintf("pap %s %d %s %s", m, sid, hx.Pick(rg, []string{"good", "good", "bad", "empty"}), out)
 	case x < 92:
 		return fmt.Sprintf("ipcp %s %d %s", m, sid, hx.Pick(rg, []string{"creq-ip", "creq-dns", "creq-none", "cack", "cack"}))
 	case x < 98:
@@ -394,7 +430,7 @@ func exhaustive(emit func([]string)) {
 	for _, m := range []string{"m1", "m2"} {
 		alpha = append(alpha, "padr "+m+" cookie", "padt "+m+" 1", "padt "+m+" 2",
 			"lcp "+m+" 1 cack", "lcp "+m+" 1 term", "lcp "+m+" 2 cack",
-			"pap "+m+" 1 good accept", "pap "+m+" 1 good reject", "pap "+m+" 2 good accept", "pap "+m+" 1 bad down",
+			"pap "+m+" 1 good accept", "pap "+m+" 1 good reject", "pap "+m+" 2 good accept", "pap "+m+" 1 bad down", "pap "+m+" 1 empty accept",
 			"ipcp "+m+" 1 creq-ip", "ipcp "+m+" 1 creq-none", "ipcp "+m+" 1 cack", "ipcp "+m+" 2 cack", "ip "+m+" 1")
 	}
 	alpha = append(alpha, "sweep", "lcp m1 1 cnak", "lcp m1 1 echo", "ipcp m1 1 creq-dns", "padr m2 nocookie")
